@@ -5,6 +5,7 @@ let two32 = n_of_string "4294967296"
 type case = {
   cfg : rcfg; th : int; panic : (psite * int * int) option; scr : scripts;
   tuned : bool; flim : nat option;
+  cstat : (ckind -> kstat) option;   (* from a counter-call sequence [cq=]; None: plain [cs=] mask *)
 }
 
 let bits4 s =
@@ -23,9 +24,24 @@ let parse_script s =
       | 'a' -> TA (n ()) | 'd' -> TD | 'g' -> TG (n ()) | 's' -> TS (n ())
       | _ -> failwith ("script token " ^ t)) (String.split_on_char ',' s)
 
+let kind_of_letter = function "B" -> Bytes | "C" -> Chars | "Y" -> Cycles | "I" -> Items | s -> failwith ("kind " ^ s)
+
+(* counter calls in the order applied to the bencher; [w] (with_inputs) does not touch the counters *)
+let parse_cq v : ccall list =
+  List.concat_map (fun t ->
+      if t = "" || t = "w" then []
+      else
+        let k = kind_of_letter (String.sub t 1 (String.length t - 1)) in
+        match t.[0] with
+        | 'i' -> [CInput (k, true)]
+        | 'a' -> [CInput (k, false)]     (* count_inputs_as: the closure is the crate's own *)
+        | 'c' -> [CConst k]
+        | _ -> failwith ("counter call " ^ t)) (String.split_on_char ',' v)
+
 let parse_case line : case =
   let e = ref 0 and sh = ref "0000" and cs = ref "0000" and u = ref false and ss = ref 1 and sc = ref 1
   and th = ref 1 and test = ref false and p = ref None and tuned = ref false and flim = ref None
+  and cq = ref None
   and g = ref [] and k = ref [] and f = ref [] and o = ref [] and i = ref [] in
   List.iter (fun tok ->
       match String.index_opt tok '=' with
@@ -36,6 +52,8 @@ let parse_case line : case =
          | "e" -> e := int_of_string v
          | "sh" -> sh := v
          | "cs" -> cs := v
+         | "cq" -> if v <> "-" then cq := Some (resolve (parse_cq v))
+         | "it" -> ()     (* u64 inputs: sized, no destructor, numbered by ordinals like every other input *)
          | "u" -> u := (v = "1")
          | "ss" -> if v = "-" then (tuned := true; ss := 1) else ss := int_of_string v
          | "cost" | "prec" -> ()     (* clock parameters: the round sizes they lead to come from the history *)
@@ -57,12 +75,15 @@ let parse_case line : case =
   if !th < 1 then failwith "th";
   let (a, b, c, d) = bits4 !sh in
   let (c0, c1, c2, c3) = bits4 !cs in
+  let rcs = match !cq with
+    | Some st -> counters_in_force st true
+    | None -> { c_bytes = c0; c_chars = c1; c_cycles = c2; c_items = c3 } in
   { cfg = { r_entry = entry_of_int !e;
             r_shape = { i_zst = a; i_drop = b; o_zst = c; o_drop = d };
-            r_cs = { c_bytes = c0; c_chars = c1; c_cycles = c2; c_items = c3 };
+            r_cs = rcs;
             r_udrop = !u; r_size = nat_of_int !ss; r_count = nat_of_int !sc;
             r_aux = nat_of_int (!th - 1); r_test = !test };
-    th = !th; panic = !p; tuned = !tuned; flim = !flim;
+    th = !th; panic = !p; tuned = !tuned; flim = !flim; cstat = !cq;
     scr = { sc_gen = !g; sc_count = !k; sc_call = !f; sc_dropout = !o; sc_dropin = !i } }
 
 (* ---- events <-> tokens ---- *)
@@ -147,7 +168,19 @@ let model_allocs (c : case) =
 let spec_allocs (c : case) =
   if fires c then [] else run_alloc_infos c.cfg (Some (spec_figures c.cfg c.scr))
 
-let render res logs allocs =
+(* expected per-kind counters: computed from inputs (one count of 1 per recorded sample, every input counts 1),
+   constant 7, or none *)
+let counts_section (c : case) (recorded : int) : string option =
+  match c.cstat with
+  | None -> None
+  | Some st ->
+    Some (String.concat " " (List.map (fun k ->
+        kind_s k ^ (match st k with
+            | KInput _ -> ":i:" ^ String.concat "," (List.init recorded (fun _ -> "1"))
+            | KConst -> ":c:7"
+            | KNone -> ":-:")) [Bytes; Chars; Cycles; Items]))
+
+let render ?counts res logs allocs =
   let b = Buffer.create 256 in
   Buffer.add_string b res;
   List.iteri (fun t l ->
@@ -155,6 +188,9 @@ let render res logs allocs =
       List.iter (fun e -> Buffer.add_char b ' '; Buffer.add_string b (ev_s e)) l) logs;
   Buffer.add_string b " | A";
   List.iter (fun a -> Buffer.add_char b ' '; Buffer.add_string b (fig_s a)) allocs;
+  (match counts with
+   | Some (Some s) -> Buffer.add_string b " | C"; if s <> "" then (Buffer.add_char b ' '; Buffer.add_string b s)
+   | _ -> ());
   Buffer.contents b
 
 let model_line line =
@@ -162,7 +198,10 @@ let model_line line =
   (* the model's own program must respect the memory discipline *)
   let prog = sample_prog c.cfg.r_entry c.cfg.r_shape (eff_size c.cfg) c.cfg.r_cs c.cfg.r_udrop in
   if not (exec_ok prog) then "model-fault"
-  else render (if fires c then "panic" else "ok") (model_logs c) (model_allocs c)
+  else
+    let recorded = if c.cfg.r_test then 0 else int_of_nat (rounds c.cfg) * (int_of_nat (eff_aux c.cfg) + 1) in
+    let counts = if fires c then (match c.cstat with Some _ -> Some "" | None -> None) else counts_section c recorded in
+    render ~counts (if fires c then "panic" else "ok") (model_logs c) (model_allocs c)
 
 (* ---- parse an implementation line ---- *)
 
@@ -179,18 +218,19 @@ let split_on_bar s =
   parts := Buffer.contents cur :: !parts;
   List.rev !parts
 
-type impl = { res : string; logs : n oev list list; allocs : string list }
+type impl = { res : string; logs : n oev list list; allocs : string list; counts : string option }
 
 let parse_impl (s : string) : impl option =
   match split_on_bar s with
   | res :: sections when res = "ok" || res = "panic" ->
-    let logs = ref [] and allocs = ref [] in
+    let logs = ref [] and allocs = ref [] and counts = ref None in
     List.iter (fun sec ->
         match List.filter (fun x -> x <> "") (toks sec) with
         | "A" :: l -> allocs := l
+        | "C" :: l -> counts := Some (String.concat " " l)
         | t :: l when String.length t >= 2 && t.[0] = 'T' -> logs := List.map ev_of_s l :: !logs
         | _ -> failwith ("bad section " ^ sec)) sections;
-    Some { res; logs = List.rev !logs; allocs = !allocs }
+    Some { res; logs = List.rev !logs; allocs = !allocs; counts = !counts }
   | _ -> None
 
 let clause_s = function
@@ -252,8 +292,10 @@ let run_sb ~(alloc : bool) line =
       | Some why -> verdict false why
       | None ->
         let want = List.map fig_s (spec_allocs c) in
+        let recorded = if c.cfg.r_test then 0 else int_of_nat (rounds c.cfg) * (int_of_nat (eff_aux c.cfg) + 1) in
         if im.allocs <> want then
           verdict false (if alloc then "sample-figures-are-not-the-tally-of-the-calls" else "allocation-reported-without-user-allocation")
+        else if im.counts <> counts_section c recorded then verdict false "an-input-counter-in-force-was-not-shown-every-input"
         else "true"
 
 let panic_sb line =
@@ -313,7 +355,8 @@ let tuned_model line =
         if t > int_of_nat (eff_aux c.cfg) then [] else thread_log_sizes c.cfg nsizes (nat_of_int t)) in
     let allocs = tuned_allocs c sizes (fun n base ->
         sample_figures_at c.cfg c.scr c.flim (nat_of_int n) (nat_of_int base) []) in
-    render "ok" logs allocs
+    let recorded = List.length (kept_rounds sizes) * (int_of_nat (eff_aux c.cfg) + 1) in
+    render ~counts:(counts_section c recorded) "ok" logs allocs
 
 let explain_sizes (c : case) sizes t (l : n oev list) : string =
   let cfg = c.cfg in
@@ -360,7 +403,10 @@ let tuned_sb line =
       | None ->
         let want = List.map fig_s (tuned_allocs c sizes (fun n base ->
             Some (spec_figures_at c.cfg c.scr c.flim (nat_of_int n) (nat_of_int base)))) in
-        if im.allocs <> want then verdict false "kept-sample-figures-are-not-the-tally-of-its-own-calls" else "true"
+        let recorded = List.length (kept_rounds sizes) * (int_of_nat (eff_aux c.cfg) + 1) in
+        if im.allocs <> want then verdict false "kept-sample-figures-are-not-the-tally-of-its-own-calls"
+        else if im.counts <> counts_section c recorded then verdict false "an-input-counter-in-force-was-not-shown-every-input"
+        else "true"
     end
 
 let dispatch mode line =
